@@ -97,6 +97,8 @@ def multipleSchema : Bytes := str "Cannot have multiple schema entry points, con
 def rootMissing (op : Bytes) (ty : Name) : Bytes :=
   str "Schema root " ++ op ++ str " refers to a type " ++ ty ++ str " that does not exist."
 def rootTwice (op : Bytes) : Bytes := str "Schema root " ++ op ++ str " is defined more than once."
+def rootNotObject (op : Bytes) (n : Name) (k : DefKind) : Bytes :=
+  str "Schema root " ++ op ++ str " must be an object type, " ++ n ++ str " is a " ++ k.render ++ str "."
 def undefinedType (n : Bytes) : Bytes := str "Undefined type " ++ n ++ str "."
 def memberKind (k : DefKind) (m : Name) : Bytes :=
   k.render ++ str " type " ++ quote m ++ str " must be " ++ kindList [.object] ++ str "."
@@ -539,6 +541,25 @@ def inferRoots (types : List (Name × Definition)) (r : Roots) : Roots :=
   { query := inferRoot types r.query nameQuery, mutation := inferRoot types r.mutation nameMutation,
     subscription := inferRoot types r.subscription nameSubscription }
 
+/-- the roots after the default-name inference (performed only without a `schema` definition) -/
+def finalRoots (sd : SchemaDoc) (s : LState) (r1 : Roots) : Roots :=
+  if sd.schema.isEmpty then inferRoots s.types r1 else r1
+
+/-- `if root.def != nil && root.def.Kind != Object { return ErrorPosf(root.def.Position, …) }`;
+    the root pointer is the name of a declared type (`RootsOK`), so the `none` lookup is unreachable -/
+def checkRootKind (s : LState) (op : Bytes) (root : Option Name) : Chk :=
+  match root with
+  | none => .pass
+  | some n =>
+    match s.type? n with
+    | none => .pass
+    | some d => if d.kind != .object then failAt d.pos (Msg.rootNotObject op d.name d.kind) else .pass
+
+/-- a root operation type is an object type: Query, Mutation, Subscription, in that order -/
+def checkRootKinds (s : LState) (r : Roots) : Chk :=
+  checkRootKind s opQuery r.query ⊳ checkRootKind s opMutation r.mutation ⊳
+  checkRootKind s opSubscription r.subscription
+
 /-- `__schema: __Schema!` and `__type(name: String!): __Type` (no positions) -/
 def introspectionFields : List FieldDef :=
   [ { desc := [], name := str "__schema", args := [], default := none,
@@ -589,7 +610,12 @@ def finish (sd : SchemaDoc) (s : LState) : LoadResult :=
           match validateDirectiveDefinitions s with
           | .fail e => .err e
           | .panic => .panic
-          | .pass => .ok (mkSchema sd s r1 dirs1)
+          | .pass =>
+            -- the LAST check: kinds of the (declared or inferred) root operation types
+            match checkRootKinds s (finalRoots sd s r1) with
+            | .fail e => .err e
+            | .panic => .panic
+            | .pass => .ok (mkSchema sd s r1 dirs1)
 
 /-- the state in which every validator runs: all four maps are final before the first check -/
 def buildState (sd : SchemaDoc) : Except LoadError LState :=
